@@ -154,3 +154,27 @@ contract('c:g_typelib_get_dir_entry_by_error_domain', cfile=CF,
              'C14.by_domain.absent_is_null': "implies(result is None and 1 <= J and J <= N_LOCAL(typelib), "
                                              "DOMAIN(typelib, J) != CSTR(c_g_quark_to_string(error_domain)))",
          })
+
+
+# ---- repository level: the per-typelib callback of g_irepository_find_by_error_domain keeps the first hit -------------------------------
+class FindByErrorDomainData(object): pass
+UNIVERSE.register(FindByErrorDomainData)
+_schema(FindByErrorDomainData, repository='any', domain='int', result_typelib='GITypelib?', result='DirEntry?')
+RF = 'girepository/girepository.c'
+contract('c:find_by_error_domain_foreach', cfile=RF, params={'key': 'any', 'value': 'GITypelib', 'datap': 'FindByErrorDomainData'},
+         props=('C14',), modifies=['datap.result', 'datap.result_typelib'],
+         requires=['isinstance(value.data, Header)', '0 <= N_LOCAL(value) and N_LOCAL(value) <= 65535',
+                   '(datap.result is None) == (datap.result_typelib is None)'],
+         ensures={
+             'C14.repository.by_domain.a_hit_is_never_lost':
+                 'implies(old(datap.result) is not None, datap.result is old(datap.result) and '
+                 'datap.result_typelib is old(datap.result_typelib))',
+             'C14.repository.by_domain.hit_in_this_typelib_is_recorded_with_its_typelib':
+                 'implies(old(datap.result) is None and datap.result is not None, datap.result_typelib is value and '
+                 'datap.result.blob_type == 5 and '
+                 'CSTR(__elemref(value.data, __elemref(value.data, datap.result.offset).error_domain)) == '
+                 'CSTR(c_g_quark_to_string(datap.domain)))',
+             'C14.repository.by_domain.entry_and_typelib_stay_paired': '(datap.result is None) == (datap.result_typelib is None)',
+         },
+         note='run by g_hash_table_foreach over every loaded typelib (the iteration itself and the cache in front of it are not '
+              'under contract): once a typelib has answered, later typelibs cannot overwrite or erase the answer')
